@@ -372,9 +372,6 @@ class NpShim:
 
     around = round
 
-    def sign(self, x):
-        return x.sign() if isinstance(x, Sym) else numpy.sign(x)
-
     def where(self, cond, *a):
         from .engine import SymBool
         if isinstance(cond, SymBool) and len(a) == 2:
@@ -402,11 +399,69 @@ class NpShim:
         for x in xs:
             if isinstance(x, Sym):
                 return True
-            if isinstance(x, (list, tuple)) and any(isinstance(y, Sym) for y in x):
+            if isinstance(x, (list, tuple)) and any(NpShim._has_sym(y) for y in x):
                 return True
             if isinstance(x, numpy.ndarray) and x.dtype == object:
                 return True
         return False
+
+    # ---- element-wise functions: NumPy's object loops call x.sqrt() etc., which plain floats stored
+    # in an object array do not have; apply the scalar function element by element instead
+    def _ew(self, name, x, *a, **kw):
+        fn = getattr(numpy, name)
+        if isinstance(x, Sym):
+            return _SCALAR[name](x)
+        if not self._has_sym(x):
+            return fn(x, *a, **kw)
+        arr = numpy.asarray(x, dtype=object)
+        out = numpy.empty(arr.shape, dtype=object)
+        for idx in numpy.ndindex(arr.shape):
+            v = arr[idx]
+            out[idx] = _SCALAR[name](v) if isinstance(v, Sym) else fn(v)
+        if name in ("isfinite", "isnan", "isinf"):
+            return out.astype(bool)
+        return out
+
+    # ---- float arrays that the code fills in afterwards: they may receive proxies, so they are
+    # created as object arrays holding Python floats (same arithmetic, no float() coercion)
+    @staticmethod
+    def _float_dtype(dt):
+        return dt is None or dt in (float, numpy.float64, numpy.float32, "float", "float64", "d")
+
+    def zeros(self, shape, dtype=None, *a, **kw):
+        if self._float_dtype(dtype):
+            return numpy.full(shape, 0.0, dtype=object)
+        return numpy.zeros(shape, dtype, *a, **kw)
+
+    def ones(self, shape, dtype=None, *a, **kw):
+        if self._float_dtype(dtype):
+            return numpy.full(shape, 1.0, dtype=object)
+        return numpy.ones(shape, dtype, *a, **kw)
+
+    def empty(self, shape, dtype=None, *a, **kw):
+        if self._float_dtype(dtype):
+            return numpy.full(shape, 0.0, dtype=object)
+        return numpy.empty(shape, dtype, *a, **kw)
+
+    def full(self, shape, fill_value, dtype=None, *a, **kw):
+        if isinstance(fill_value, Sym) or (self._float_dtype(dtype) and isinstance(fill_value, (float, numpy.floating))):
+            return numpy.full(shape, fill_value, dtype=object)
+        return numpy.full(shape, fill_value, dtype, *a, **kw)
+
+    def zeros_like(self, x, dtype=None, *a, **kw):
+        if self._has_sym(x) and self._float_dtype(dtype):
+            return numpy.full(numpy.shape(x), 0.0, dtype=object)
+        return numpy.zeros_like(x, dtype, *a, **kw)
+
+    def ones_like(self, x, dtype=None, *a, **kw):
+        if self._has_sym(x) and self._float_dtype(dtype):
+            return numpy.full(numpy.shape(x), 1.0, dtype=object)
+        return numpy.ones_like(x, dtype, *a, **kw)
+
+    def full_like(self, x, fill_value, dtype=None, *a, **kw):
+        if (self._has_sym(x) or isinstance(fill_value, Sym)) and self._float_dtype(dtype):
+            return numpy.full(numpy.shape(x), fill_value, dtype=object)
+        return numpy.full_like(x, fill_value, dtype, *a, **kw)
 
     def isclose(self, a, b, rtol=1e-05, atol=1e-08, equal_nan=False):
         if not self._has_sym(a, b):
@@ -428,14 +483,26 @@ class NpShim:
         r = self.isclose(a, b, rtol, atol, equal_nan)
         return r.all() if hasattr(r, "all") else bool(r)
 
-    def isfinite(self, x):
-        return True if isinstance(x, Sym) else numpy.isfinite(x)
 
-    def isnan(self, x):
-        return False if isinstance(x, Sym) else numpy.isnan(x)
 
-    def isinf(self, x):
-        return False if isinstance(x, Sym) else numpy.isinf(x)
+_SCALAR = {
+    "sqrt": lambda x: x.sqrt(), "log": lambda x: x.log(), "log2": lambda x: x.log2(), "exp": lambda x: x.exp(),
+    "sin": lambda x: x.sin(), "cos": lambda x: x.cos(), "abs": abs, "absolute": abs, "fabs": abs,
+    "floor": lambda x: x.floor(), "ceil": lambda x: x.ceil(), "square": lambda x: x * x,
+    "sign": lambda x: x.sign(), "negative": lambda x: -x,
+    "isfinite": lambda x: True, "isnan": lambda x: False, "isinf": lambda x: False,
+}
+
+
+def _mk_ew(name):
+    def f(self, x, *a, **kw):
+        return self._ew(name, x, *a, **kw)
+    f.__name__ = name
+    return f
+
+
+for _n in _SCALAR:
+    setattr(NpShim, _n, _mk_ew(_n))
 
 
 class SymBoolArray:
